@@ -185,8 +185,9 @@ def random_histories(out: Outcome, rng, n: int) -> None:
 def statistics(out: Outcome, rng, n: int) -> None:
     lines, expect = [], []
     for _ in range(n):
-        xs = [rng.choice([rng.gauss(0, 1), float(rng.randint(0, 1)), 0.0, rng.uniform(-1e3, 1e3)]) for _ in range(rng.randint(1, 80))]
-        sc = max([1.0] + [abs(v) for v in xs])
+        unit = rng.choice([1.0, 1.0, 1.0, 1e-13, 1e-7, 1e9])       # the statistics are scale-equivariant: tolerances follow the scale of the data, without a floor at 1
+        xs = [unit * rng.choice([rng.gauss(0, 1), float(rng.randint(0, 1)), 0.0, rng.uniform(-1e3, 1e3)]) for _ in range(rng.randint(1, 80))]
+        sc = max([abs(v) for v in xs]) or 1.0
         m, a = Mean(), rng.choice([0.0, 0.05, 0.3, 1.0, rng.random()])
         e, size = EWMA(alpha=a), rng.choice([1, 2, 3, 7])
         c, pa = CircularMean(size=size), rng.choice([1.0, 0.999, 0.9, 0.5, 0.01])
@@ -217,7 +218,7 @@ def statistics(out: Outcome, rng, n: int) -> None:
             continue
         name, val, xs = exp
         gv = h2f(got.split(" ")[0][1:])
-        if not close(gv, float(val), 1e-9 * max([1.0] + [abs(v) for v in xs])):
+        if abs(gv - float(val)) > 1e-9 * (max(abs(v) for v in xs) or 1.0) and not (gv != gv and float(val) != float(val)):
             out.mismatch(f"{name}: model value {gv!r} differs from implementation {float(val)!r}", {"values": xs})
             break
     out.traces_validated += n
